@@ -12,7 +12,7 @@ import z3
 import symx
 from symx import B, R, Sp, ShimUnsupported
 import numpy as np
-from _core import log, _sum, _numel
+from _core import log as _elog, _sum, _numel
 
 CLARABEL = "CLARABEL"
 ECOS = "ECOS"
@@ -404,7 +404,7 @@ def _solve_simplex_foc(prob, solver):
     if keys != want:
         raise ShimUnsupported(f"cvxpy stub: feasible set is not written as the simplex: {keys}")
     for c in prob.constraints:
-        k = c.args[1].eval()._as_scalar()
+        k = symx.lift(c.args[1].eval()._as_scalar())
         if c.rel == "ge" and not (k.conc and k.frac() == 0):
             raise ShimUnsupported("cvxpy stub: w >= 0 expected")
         if c.rel == "eq" and not (k.conc and k.frac() == 1):
@@ -481,7 +481,7 @@ def _solve_simplex_foc(prob, solver):
             symx.assume((grad[i] >= gw).z())
     at(wv)
     prob.status = "optimal"
-    log("kernel", "cvxpy_simplex", prob, list(wv), smooth)
+    _elog("kernel", "cvxpy_simplex", prob, list(wv), smooth)
     return None
 
 
@@ -524,7 +524,7 @@ def _solve_uninterpreted(prob, solver, warm_start, kw):
                 vals.append(xs)
         outcome = (kind, vals)
         calls.append((key, list(args), outcome))
-    log("kernel", "cvxpy_uninterpreted", prob, list(args), outcome)
+    _elog("kernel", "cvxpy_uninterpreted", prob, list(args), outcome)
     kind, vals = outcome
     if kind == "raise":
         raise SolverError("Solver 'ECOS' failed. Try another solver, or solve with verbose=True for more information.")
